@@ -119,6 +119,8 @@ package plot
 //@   ensures result != nil && fresh(result) && icur(result) == 0 && ilen(result) == pushed(ts.data)
 
 // Plot.data: one row per (downsampled) point of every series, one column per series, sorted by x.
+// incol(s): series s has been given a column of the plot.
+//@ ghostfield incol bool
 //@ spec func tswf(s *timeSeries) bool = s.data != nil && s.len == pushed(s.data) && s.len >= 0
 //@ func (*Plot).data
 //@   property C17
@@ -133,6 +135,8 @@ package plot
 //@   before call Slice: assert [comparator-precondition-holds-for-all-in-range-indices] forall k int :: 0 <= k && k < len(series) ==> series[k] != nil
 //@   at call Slice: havoc series[*] ; assume [sort.Slice-permutes-the-series] forall k int :: 0 <= k && k < len(series) ==> series[k] != nil && tswf(series[k])
 //@   at call Downsample: ghost rows = rows + len(result0)
+//@   at store series: ghost incol(arg0[len(arg0)-1]) = true
+//@   ensures [every-series-of-every-attack-gets-a-column] err == nil ==> (forall a, l string :: has(p.series, a) && has(p.series[a].series, l) && p.series[a].series[l] != nil ==> incol(p.series[a].series[l]))
 //@   before call Sort: assert [one-row-per-downsampled-point] len(data) == rows ;
 //@        assert [one-column-per-series-plus-x] forall k int :: 0 <= k && k < len(data) ==> len(data[k]) == 1 + len(series)
 //@   at call Sort: havoc data[*] ; assume [sort.Sort-orders-by-Less] forall a, b int :: 0 <= a && a < b && b < len(data) ==> len(data[a]) >= 1 && len(data[b]) >= 1 && !(data[b][0] < data[a][0])
@@ -140,8 +144,11 @@ package plot
 //@   ensures [one-label-per-column] err == nil ==> len(labels) >= 1 && labels[0] == "Seconds"
 //@   loop 1
 //@     invariant p == old(p) && count >= 0 && (forall k int :: 0 <= k && k < len(series) ==> series[k] != nil && tswf(series[k]))
+//@     invariant forall a, l string :: visitedin(1, a) && has(p.series[a].series, l) && p.series[a].series[l] != nil ==> incol(p.series[a].series[l])
 //@   loop 2
 //@     invariant p == old(p) && count >= 0 && (forall k int :: 0 <= k && k < len(series) ==> series[k] != nil && tswf(series[k]))
+//@     invariant forall a, l string :: visitedin(1, a) && p.series[a] != as && has(p.series[a].series, l) && p.series[a].series[l] != nil ==> incol(p.series[a].series[l])
+//@     invariant forall l string :: visitedin(2, l) && as.series[l] != nil ==> incol(as.series[l])
 //@   loop 3
 //@     invariant -1 <= rangeindex && rangeindex < len(series) && size == 1 + len(series) && len(labels) == size && fresh(labels) && labels[0] == "Seconds"
 //@     invariant forall k int :: 0 <= k && k < len(series) ==> series[k] != nil && tswf(series[k])
